@@ -324,3 +324,21 @@ func init() {
 	addControl(control{Prop: "C12", Name: "getter-with-named-intermediate", Rule: "R12a", Kind: "refactor", Quick: true,
 		File: "getset.go", Old: "func (c *Config) getField(name string, idx int, opts *options) (value, Error) {\n	p := parsePathIdx(name, idx, opts)\n	v, err := p.GetValue(c, opts)", New: "func (c *Config) getField(name string, idx int, opts *options) (value, Error) {\n	path := parsePathIdx(name, idx, opts)\n	p := path\n	v, err := p.GetValue(c, opts)"})
 }
+
+func init() {
+	// ---------------- C13 ----------------
+	addControl(control{Prop: "C13", Name: "unpack-into-callers-struct-when-settable", Rule: "R13a", Kind: "mutant", Quick: true,
+		File: "reify.go", Old: "	if orig.Kind() == reflect.Struct { // if orig is has been allocated copy into to\n		to.Set(orig)\n	}\n", New: "	if orig.Kind() == reflect.Struct { // if orig is has been allocated copy into to\n		to.Set(orig)\n		if orig.CanSet() {\n			to = orig\n		}\n	}\n", Expect: "R13a/ucfg.reifyStruct"})
+	addControl(control{Prop: "C13", Name: "initdefaults-on-callers-struct", Rule: "R13a", Kind: "mutant",
+		File: "reify.go", Old: "	} else {\n		tryInitDefaults(to)\n		numField := to.NumField()", New: "	} else {\n		tryInitDefaults(orig)\n		numField := to.NumField()", Expect: "R13a/ucfg.reifyStruct/caller's struct escape"})
+	addControl(control{Prop: "C13", Name: "assign-back-before-validation", Rule: "R13a", Kind: "mutant", Quick: true,
+		File: "reify.go", Old: "	if err := tryValidate(to); err != nil {\n		return raiseValidation(cfg.ctx, cfg.metadata, \"\", err)\n	}\n\n	orig.Set(pointerize(orig.Type(), to.Type(), to))\n	return nil", New: "	orig.Set(pointerize(orig.Type(), to.Type(), to))\n	if err := tryValidate(to); err != nil {\n		return raiseValidation(cfg.ctx, cfg.metadata, \"\", err)\n	}\n	return nil", Expect: "R13a/ucfg.reifyStruct/commit is last"})
+	addControl(control{Prop: "C13", Name: "slice-merged-in-place-when-it-fits", Rule: "R13b", Kind: "mutant",
+		File: "reify.go", Old: "	tmp := reflect.MakeSlice(tTo, l, l)\n\n	if withOld {\n		reflect.Copy(tmp.Slice(cpyStart, tmp.Len()), old)\n	}", New: "	tmp := reflect.MakeSlice(tTo, l, l)\n\n	if withOld && cpyStart == 0 && l == old.Len() {\n		tmp = old\n	} else if withOld {\n		reflect.Copy(tmp.Slice(cpyStart, tmp.Len()), old)\n	}", Expect: "R13b/ucfg.reifySliceMerge/old slice only read"})
+	addControl(control{Prop: "C13", Name: "field-touched-before-skip-tests", Rule: "R13c", Kind: "mutant",
+		File: "util.go", Old: "	stField := structVal.Type().Field(fieldIdx)\n\n	// ignore non exported fields", New: "	stField := structVal.Type().Field(fieldIdx)\n	if structVal.Field(fieldIdx).Kind() == reflect.Invalid {\n		return fieldInfo{}, true, nil\n	}\n\n	// ignore non exported fields", Expect: "R13c/ucfg.accessField/field access guarded"})
+	addControl(control{Prop: "C13", Name: "arr-replace-falls-to-default-again", Rule: "R13d", Kind: "mutant", Quick: true,
+		File: "reify.go", Old: "		case cfgReplaceValue, cfgArrReplaceValue:\n			// do nothing", New: "		case cfgReplaceValue:\n			// do nothing", Expect: "R13d/ucfg.reifySliceMerge/dispatch agreement"})
+	addControl(control{Prop: "C13", Name: "commit-through-a-local", Rule: "R13a", Kind: "refactor", Quick: true,
+		File: "reify.go", Old: "	orig.Set(pointerize(orig.Type(), to.Type(), to))\n	return nil\n}\n\nfunc reifyGetField(", New: "	res := pointerize(orig.Type(), to.Type(), to)\n	orig.Set(res)\n	return nil\n}\n\nfunc reifyGetField("})
+}
